@@ -2,7 +2,7 @@
 import concurrent.futures as cf
 import hashlib
 import json
-import os
+import glob, os
 import re
 import resource
 import shutil
@@ -40,6 +40,10 @@ def sh(cmd, cwd=None, timeout=None, mem=True, env=None):
         if mem:
             resource.setrlimit(resource.RLIMIT_AS, (MEM_KB * 1024, MEM_KB * 1024))
     t0 = time.time()
+    if env is None and cwd:
+        # temporary files of the tools (cbmc writes the CNF for an external SAT solver to $TMPDIR and leaves it behind when it is
+        # killed on a time-out: tens of megabytes each) go into the group's work directory, which is removed with the run
+        env = dict(os.environ, TMPDIR=cwd)
     try:
         p = subprocess.run(cmd, cwd=cwd, stdout=subprocess.PIPE, stderr=subprocess.PIPE, timeout=timeout, preexec_fn=lim, env=env)
         return p.returncode, p.stdout.decode("utf-8", "replace"), p.stderr.decode("utf-8", "replace"), time.time() - t0
@@ -595,6 +599,15 @@ def check_property(prop, tier, seed, keep=False, only_group=None, only_family=No
     t0 = time.time()
     work = os.path.join(ROOT, ".work", "%s_%d" % (prop, os.getpid()))
     shutil.rmtree(work, ignore_errors=True)
+    # work directories of earlier runs of this property whose process is gone (killed by an outer time limit) are removed
+    for d in glob.glob(os.path.join(ROOT, ".work", "%s_[0-9]*" % prop)):
+        try:
+            pid = int(d.rsplit("_", 1)[1])
+            os.kill(pid, 0)
+        except (ValueError, IndexError, PermissionError):
+            continue
+        except ProcessLookupError:
+            shutil.rmtree(d, ignore_errors=True)
     os.makedirs(work)
     lines, undecided, violations, known_hits = [], [], [], []
     results = []
